@@ -438,3 +438,15 @@ Definition c03_encode_ok (inputs : list doc) (ds : list doc) : bool :=
 Definition table_columns (t : table) : list (list Z) :=
   map (fun i => spec_column i (fst t)) (seq 0 (length (spec_metrics_doc (snd t)))).
 Definition table_docs (t : table) : list doc := map (spec_fill_doc (snd t)) (fst t).
+
+(* encode direction, samples as documents.  c03_encode_verdict compares metric VECTORS and the
+   first sample of each chunk only; a sample filed under a chunk whose reference document has
+   other key names and the same number of metrics passes it.  This check closes the gap:
+   the samples read back as documents (reference document of their chunk filled with their values, every other leaf
+   removed) are the inputs with every non-metric leaf removed *)
+Definition self_fill (d : doc) : doc := spec_fill_doc d (spec_metrics_doc d).
+Definition c03_encode_docs_ok (inputs : list doc) (ds : list doc) : bool :=
+  match x_spec_decode_stream ds with
+  | None => false
+  | Some ts => spec_bytes_eqb (concat (map enc_doc (concat (map table_docs ts)))) (concat (map enc_doc (map self_fill inputs)))
+  end.
